@@ -13,6 +13,8 @@ STUBS = ['std::ostringstream, operator<<(int|char|double|_Setw|_Setfill|_Setprec
          'gmtime_r := fixed valid date/hour/minute fields, tm_sec = s mod 60 (the date part of the stamp is not the subject of this clause)',
          'std::string: models/cxx.c']
 
+GTS = '_ZN4FIX817GetTimeAsStringMSERNSt7__cxx1112basic_stringIcSt11char_traitsIcESaIcEEEPKNS_7TickvalEjb'
+
 def build(ctx):
     shim = ctx.build_ir('c09_logts.cpp', 'cut'); ut = ctx.build_ir(REPO + '/runtime/f8utils.cpp', 'cut')
     ll = ctx.link_ir([shim, ut], 'c09lall')
@@ -28,7 +30,7 @@ def add_harnesses(ctx, defs=()):
     places = (1, 6, 9) if ctx.tier == 'quick' else range(1, 10)
     for d in places:
         ctx.add(Harness('C09_logts_d%d' % d, VERIF + '/harness/C09_logts.c', defines=list(defs) + ['DPLACES=%d' % d, 'VF_MAXCOPY=40'], unwind=3,
-                        unwindset=['vf_logts.0:41', 'vf_logts.1:41', 'vf_logts.2:41', 'vf_copy.0:42'], timeout=900, functions=FUN, stubs=STUBS,
+                        unwindset=['vf_logts.0:41', 'vf_logts.1:41', 'vf_logts.2:41', 'vf_copy.0:42'] + ['%s.%d:10' % (GTS, i) for i in range(12)],   # a digit-scaling loop in the renderer runs <= 9 times timeout=900, functions=FUN, stubs=STUBS,
                         bounds='every instant with 0 <= seconds < 2^32 and 0 <= nanoseconds < 10^9, %d decimal place(s), UTC' % d,
                         desc='GetTimeAsStringMS text: layout and seconds field in 00..59'))
     ctx.assumptions += ['log timestamp: local-time rendering (localtime_r, TZ database) and dplaces = 0 or > 9 are outside the claim']
